@@ -129,6 +129,28 @@ fn order_sensitive(m: &Matrix) -> bool {
     })
 }
 
+/// Exact support test without enumerating orders: `w` can win iff the greedy order "apply any remaining case on
+/// which w is among the best of the current candidates" never gets stuck before the cases run out or w is
+/// alone. (Applying such a case only removes competitors, which can never hurt w later, so greedy is exact.)
+fn in_support(m: &Matrix, w: usize) -> bool {
+    let mut cand: Vec<usize> = (0..m.rows.len()).collect();
+    let mut left: Vec<usize> = (0..m.c).collect();
+    loop {
+        if cand.len() <= 1 || left.is_empty() {
+            return true;
+        }
+        let pick = left.iter().position(|&case| !cand.iter().any(|&i| better(m.polarity, m.rows[i][case], m.rows[w][case])));
+        match pick {
+            None => return false,
+            Some(p) => {
+                let case = left.swap_remove(p);
+                let best = m.rows[w][case];
+                cand.retain(|&i| m.rows[i][case] == best);
+            }
+        }
+    }
+}
+
 fn dominated(m: &Matrix, w: usize) -> Option<usize> {
     (0..m.rows.len()).find(|&j| {
         j != w
@@ -138,26 +160,83 @@ fn dominated(m: &Matrix, w: usize) -> Option<usize> {
 }
 
 fn select_index<G: rand::Rng>(m: &Matrix, rng: &mut G) -> Result<Option<usize>, simcore::Panicked> {
+    select_index_warm(m, rng, None)
+}
+
+/// `warm`: the Lexicase VALUE first selects once from another population (rows reversed, one duplicate more)
+/// with its own stream — a selector must not carry anything over between calls.
+fn select_index_warm<G: rand::Rng>(m: &Matrix, rng: &mut G, warm: Option<u64>) -> Result<Option<usize>, simcore::Panicked> {
+    let wm = Matrix { rows: m.rows.iter().rev().cloned().chain(m.rows.first().cloned()).collect(), ..m.clone() };
     match m.polarity {
         Polarity::Score => {
             let pop: Vec<Ind<Score<i64>>> = make_pop(m);
-            catch(|| Lexicase::new(m.c).select(&pop, rng).ok().and_then(|r| pop.iter().position(|x| std::ptr::eq(x, r))))
+            let wpop: Vec<Ind<Score<i64>>> = if warm.is_some() { make_pop(&wm) } else { Vec::new() };
+            catch(|| {
+                let l = Lexicase::new(m.c);
+                if let Some(seed) = warm {
+                    let _ = l.select(&wpop, &mut FastRng::new(seed));
+                }
+                l.select(&pop, rng).ok().and_then(|r| pop.iter().position(|x| std::ptr::eq(x, r)))
+            })
         }
         Polarity::Error => {
             let pop: Vec<Ind<ErrR<i64>>> = make_pop(m);
-            catch(|| Lexicase::new(m.c).select(&pop, rng).ok().and_then(|r| pop.iter().position(|x| std::ptr::eq(x, r))))
+            let wpop: Vec<Ind<ErrR<i64>>> = if warm.is_some() { make_pop(&wm) } else { Vec::new() };
+            catch(|| {
+                let l = Lexicase::new(m.c);
+                if let Some(seed) = warm {
+                    let _ = l.select(&wpop, &mut FastRng::new(seed));
+                }
+                l.select(&pop, rng).ok().and_then(|r| pop.iter().position(|x| std::ptr::eq(x, r)))
+            })
         }
+    }
+}
+
+fn show_rows(m: &Matrix) -> String {
+    if m.rows.len() * m.rows.first().map_or(0, Vec::len) <= 60 {
+        format!("{:?}", m.rows)
+    } else {
+        format!("<{} x {} matrix, see the replay file>", m.rows.len(), m.rows.first().map_or(0, Vec::len))
     }
 }
 
 fn exec_one(m: &Matrix, spec: &RngSpec, obs: &mut Obs) -> Vec<Violation> {
     let mut rng = spec.build();
-    let r = select_index(m, &mut rng);
+    let r = select_index_warm(m, &mut rng, (spec.seed % 3 == 0).then_some(spec.seed ^ 0x1e8));
     obs.count("draws", rng.draws());
     obs.count("fault.adversarial-stream-words", rng.boundary_fired());
     let mut v = Vec::new();
-    let Ok(Some(w)) = r else { return v }; // panics / errors: C06
-    let l = law(m);
+    let Ok(Some(w)) = r else {
+        // inside C08's quantifier (a non-empty population, case count <= results available) lexicase must
+        // RETURN a survivor: a panic or an error there means none was returned
+        if !m.rows.is_empty() {
+            v.push(Violation::new(
+                "returns-a-survivor",
+                format!("no-individual:{:?}", m.polarity),
+                format!(
+                    "lexicase({}) on a population of {} ({:?}, {} results each) panicked or reported an error instead of returning an individual",
+                    m.c,
+                    m.rows.len(),
+                    m.polarity,
+                    m.rows.first().map_or(0, Vec::len)
+                ),
+            ));
+        }
+        return v;
+    };
+    let small = m.c <= 5 && m.rows.len() <= 8;
+    if !small {
+        obs.hit("probe.large-matrix");
+    }
+    let l = if small { law(m) } else { (0..m.rows.len()).map(|i| if i == w && !in_support(m, w) { 0.0 } else { f64::NAN }).collect() };
+    if small && in_support(m, w) != (l[w] > 0.0) {
+        v.push(Violation::new(
+            "harness-self-check",
+            "support-oracles-disagree".to_string(),
+            format!("greedy support test and enumerated law disagree on individual #{w} of {m:?}"),
+        ));
+    }
     if m.rows.len() == 1 {
         obs.hit("probe.single-individual");
     }
@@ -169,8 +248,11 @@ fn exec_one(m: &Matrix, spec: &RngSpec, obs: &mut Obs) -> Vec<Violation> {
             "winner-survives-some-case-order",
             format!("winner-outside-support:{:?}", m.polarity),
             format!(
-                "lexicase({}) on {:?} rows {:?} returned individual #{w}, which survives no ordering of the cases (law {:?})",
-                m.c, m.polarity, m.rows, l
+                "lexicase({}) on {:?} rows {} returned individual #{w}, which survives no ordering of the cases (law {})",
+                m.c,
+                m.polarity,
+                show_rows(m),
+                if small { format!("{l:?}") } else { "not enumerated: greedy support test".to_string() }
             ),
         ));
     }
@@ -179,8 +261,10 @@ fn exec_one(m: &Matrix, spec: &RngSpec, obs: &mut Obs) -> Vec<Violation> {
             "winner-never-pareto-dominated",
             format!("dominated-winner:{:?}", m.polarity),
             format!(
-                "lexicase({}) on {:?} rows {:?} returned individual #{w}, which is Pareto-dominated by #{j} on the considered cases",
-                m.c, m.polarity, m.rows
+                "lexicase({}) on {:?} rows {} returned individual #{w}, which is Pareto-dominated by #{j} on the considered cases",
+                m.c,
+                m.polarity,
+                show_rows(m)
             ),
         ));
     }
@@ -239,6 +323,29 @@ fn exec_dist(m: &Matrix, trials: u64, seed: u64, cells_total: u64, obs: &mut Obs
     v
 }
 
+/// Larger matrices (populations up to 400, up to 60 cases): the exact clauses are decided by the greedy support
+/// test and the dominance test; the law is not enumerated.
+fn gen_big_matrix(g: &mut Xo) -> Matrix {
+    let n = g.log_uniform(2, 400);
+    let avail = g.log_uniform(1, 60);
+    let c = if g.chance(1, 4) { g.urange(0, avail) } else { avail };
+    let hi = *g.pick(&[1u64, 1, 2, 3, 9, 1000]);
+    // many near-duplicates of a few archetypes, so that large survivor sets and long filter chains occur
+    let archetypes: Vec<Vec<i64>> = (0..g.urange(1, 6)).map(|_| (0..avail).map(|_| g.range(0, hi) as i64).collect()).collect();
+    let rows = (0..n)
+        .map(|_| {
+            let mut r = g.pick(&archetypes).clone();
+            for x in &mut r {
+                if g.chance(1, 8) {
+                    *x = g.range(0, hi) as i64;
+                }
+            }
+            r
+        })
+        .collect();
+    Matrix { polarity: if g.coin() { Polarity::Score } else { Polarity::Error }, rows, c }
+}
+
 fn gen_matrix(g: &mut Xo, want_sensitive: bool) -> Matrix {
     for _ in 0..50 {
         let n = if want_sensitive { g.urange(2, 6) } else { g.urange(1, 6) };
@@ -275,7 +382,9 @@ impl Check for C08 {
          errors, configured case count <= available; at least half generated to be order-sensitive), N seeded selections each; every \
          individual's winning frequency vs the exact law obtained by enumerating all c! case orders (KL rule, total false-alarm budget \
          1e-9); (2) seeded single selections under seeded and boundary streams: the winner must have positive mass under the law and must \
-         not be Pareto-dominated on the considered cases. Non-trivial: experiments always; single selections with >= 2 individuals and \
+         not be Pareto-dominated on the considered cases; 1 in 25 of them on LARGE matrices (populations up to 400, up to 60 cases, \
+         near-duplicate archetypes) where support is decided exactly by a greedy test instead of enumeration; a panic or error on a \
+         non-empty population is a violation too. Non-trivial: experiments always; single selections with >= 2 individuals and \
          >= 1 case; distinct = matrix (and winner) fingerprints"
             .into()
     }
@@ -300,6 +409,9 @@ impl Check for C08 {
                 seed: g.next_u64(),
                 cells_total: mats * 6,
             };
+        }
+        if g.chance(1, 25) {
+            return Sc::One { m: gen_big_matrix(g), rng: RngSpec::swarm(g) };
         }
         let sens = g.coin();
         Sc::One { m: gen_matrix(g, sens), rng: RngSpec::swarm(g) }
